@@ -196,9 +196,18 @@ class AxArr:
     def __repr__(self):
         return f"{self.tag}{list(self.axes)}"
 
+    @staticmethod
+    def _extent(a):
+        if isinstance(a, tuple):
+            p = Poly.const(1)
+            for r in a:
+                p = p * Poly.sym("n_" + str(r))
+            return p
+        return Poly.sym("n_" + str(a))
+
     def skv_getattr(self, name):
         if name == "shape":
-            return tuple(Poly.sym("n_" + str(a)) for a in self.axes)
+            return tuple(self._extent(a) for a in self.axes)
         if name == "T":
             return AxArr(tuple(reversed(self.axes)), self.tag)
         if name == "transpose":
@@ -215,25 +224,30 @@ class AxArr:
                 shp = a[0] if len(a) == 1 and isinstance(a[0], tuple) else a
                 if k.get("order", "C") not in ("C", "c"):
                     raise Unsupported("non-C reshape")
-                if len(self.axes) != 1 or not isinstance(self.axes[0],
-                                                         tuple):
-                    raise Unsupported("reshape of a non-flat array")
-                roles = self.axes[0]
-                # the leading extents must be the symbols of the merged
-                # roles in order; -1 takes the rest
+                # C-order reshape regroups the atomic roles in sequence:
+                # every requested extent must be the product of the sizes
+                # of the next few roles; -1 takes the rest
+                roles = []
+                for ax in self.axes:
+                    roles += list(ax) if isinstance(ax, tuple) else [ax]
                 out, k_ = [], 0
                 for ext in shp:
                     if ext == -1 or ext == Fraction(-1):
-                        out.append(roles[k_] if len(roles) - k_ == 1
-                                   else tuple(roles[k_:]))
+                        rest = roles[k_:]
+                        out.append(rest[0] if len(rest) == 1
+                                   else tuple(rest))
                         k_ = len(roles)
-                    else:
-                        if k_ >= len(roles) or \
-                                Poly.coerce(ext) != Poly.sym(
-                                    "n_" + str(roles[k_])):
-                            return AxArr(("MISMATCH",), "reshape")
-                        out.append(roles[k_])
+                        continue
+                    want, got, grp = Poly.coerce(ext), Poly.const(1), []
+                    while k_ < len(roles) and got != want:
+                        got = got * Poly.sym("n_" + str(roles[k_]))
+                        grp.append(roles[k_])
                         k_ += 1
+                    if got != want or not grp:
+                        return AxArr(("MISMATCH",), "reshape")
+                    out.append(grp[0] if len(grp) == 1 else tuple(grp))
+                if k_ != len(roles):
+                    return AxArr(("MISMATCH",), "reshape")
                 return AxArr(out, self.tag)
             return PyFunc(rs)
         if name == "flatten":
